@@ -2,6 +2,20 @@ import CV.Proofs.ChainExample
 import CV.Proofs.ChainTotal
 /-!
 # C09 (chain coder part) — impossible symbols are rejected, a failed encode leaves the coder intact
+
+Scope.  "The coder is intact after a failure" is proved here for the failure the property is
+about for the chain coder: **`ImpossibleSymbol`** (`impossible_rejected`,
+`encodeSymbols_stops`, `failed_encode_harmless`).  The other frontend error of `encode_symbol`,
+`OutOfRemainders`, is likewise raised before any change (`CV.Chain.C13.errors_not_garbage`).
+
+A failing **backend** (`CoderError::Backend(BackendError::Compressed | Remainders)`) is *not*
+modelled: the model's backends are `Vec<Word>`, whose writes cannot fail and whose reads
+report exhaustion as `None`.  With a fallible backend the chain coder is in fact not atomic:
+`decode_symbol` (`chain.rs:1060-1118`) has already replaced `heads.compressed` and
+`heads.remainders` when `flush_remainders_head()?` can fail, and `encode_symbol`
+(`chain.rs:1174-1205`) has updated both heads before `self.compressed.write(word)?`.  C09
+demands write-failure atomicity only of the ANS coder (see `C09_ans.lean`), so this is a
+stated limit of the model, not a claimed property.
 -/
 namespace CV.Chain.C09
 open CV CV.Chain
